@@ -256,8 +256,8 @@ def gen_init(rnd, cfg=None, *, max_nodes=10, need_edges=False) -> dict:
             stray.append({"label": lab, "t": t, "boxes": boxes})
     # parents that were skipped (frame full) cannot happen: parents are taken from ``nodes``
     return {"cfg": cfg, "nodes": nodes, "stray": stray,
-            "id_offsets": [rnd.randint(0, 6) + (300 if rnd.random() < 0.2 else 0),
-                           rnd.randint(0, 6) + (300 if rnd.random() < 0.2 else 0)],
+            "id_offsets": [rnd.choice([0, rnd.randint(0, 6)]) + (300 if rnd.random() < 0.2 else 0),
+                           rnd.choice([0, rnd.randint(0, 6)]) + (300 if rnd.random() < 0.2 else 0)],
             # order in which nodes enter the graph and in which pre-existing ids are handed to
             # the tracklets / lineages (None: sorted by node id, increasing ids)
             "perm_seed": rnd.randint(1, 10**6) if rnd.random() < 0.5 else None}
@@ -946,7 +946,7 @@ def _gen_add_node(world, rnd, bad) -> dict:
             attrs.pop(world.time_key)
         elif r < 0.4:
             attrs.pop(world.tkey)
-        elif r < 0.62:
+        elif r < 0.7:
             # pixels that cannot be written: no label image to write to, an index outside the
             # frame, a node id the label dtype cannot hold
             if tr.segmentation is None:
@@ -967,6 +967,16 @@ def _gen_add_node(world, rnd, bad) -> dict:
     if bad_pixels:
         op["bad_pixels"] = bad_pixels
         op["force"] = rnd.random() < 0.75
+        slot = _busy_slot(world, rnd)
+        if slot is not None and op["pixels"] is not None and rnd.random() < 0.8:
+            # where a successful run would have to do the most sub-edits first
+            t2, tid2 = slot
+            if bad_pixels == "out_of_bounds":
+                pass  # (the pixels belong to frame t)
+            else:
+                op["attrs"][world.time_key] = t2
+                op["pixels"][0] = [t2] * len(op["pixels"][0])
+            op["attrs"][world.tkey] = tid2
     return op
 
 
